@@ -141,3 +141,64 @@ func TestMain(m *testing.M) {
 	}
 	os.Exit(code)
 }
+
+// ---- known-finding replay -------------------------------------------------------------
+
+type probe struct {
+	failed bool
+	msg    string
+}
+
+func (p *probe) Fatalf(format string, args ...any) { p.failed = true; p.msg = fmt.Sprintf(format, args...); panic(probeStop{}) }
+func (p *probe) Logf(format string, args ...any)   {}
+func (p *probe) Helper()                           {}
+
+type probeStop struct{}
+
+// runProbe runs a check with known-finding suppression disabled for sig and reports whether it failed with exactly that signature.
+func runProbe(prop, sig string, f func(t fataler)) (failedWithSig bool, msg string) {
+	p := &probe{}
+	saved := findings
+	var tmp []finding
+	for _, fd := range findings {
+		if !(fd.prop == prop && fd.sig == sig) {
+			tmp = append(tmp, fd)
+		}
+	}
+	findings = tmp
+	defer func() {
+		findings = saved
+		if r := recover(); r != nil {
+			if _, ok := r.(probeStop); !ok {
+				panic(r)
+			}
+		}
+		failedWithSig = p.failed && strings.Contains(p.msg, "[sig="+sig+"]")
+		msg = p.msg
+	}()
+	f(p)
+	return
+}
+
+// reportKnown replays the regression input of a listed finding: still failing with its signature
+// => one KNOWN-FINDING line; failing differently => a violation; not listed => an ordinary check.
+func reportKnown(t fataler, prop, sig string, f func(t fataler)) {
+	if !isKnown(prop, sig) {
+		f(t) // not (or no longer) listed: the input is an ordinary regression case and must pass
+		return
+	}
+	ok, msg := runProbe(prop, sig, f)
+	switch {
+	case ok:
+		for _, fd := range knownFindings(prop) {
+			if fd.sig == sig {
+				fmt.Printf("KNOWN-FINDING: %s\n", fd.desc)
+			}
+		}
+		stats.C.KnownHit(sig)
+	case msg != "":
+		t.Fatalf("%s", msg)
+	default:
+		fmt.Printf("NOTE: listed finding property=%s sig=%s does not reproduce any more on its regression input\n", prop, sig)
+	}
+}
